@@ -1,6 +1,10 @@
 package impl
 
 import (
+	"context"
+
+	"github.com/libp2p/go-libp2p/core/peer"
+
 	datatransfer "github.com/filecoin-project/go-data-transfer/v2"
 	"github.com/filecoin-project/go-data-transfer/v2/channels"
 	zz "github.com/filecoin-project/go-data-transfer/v2/zzverif"
@@ -112,4 +116,87 @@ func VerifC17_PerTransferSubscriberUnaffectedByOtherChannels() {
 	if appliedA > 0 {
 		zz.Reach("event on the subscribed channel")
 	}
+}
+
+// VerifC17_LateAnnouncementsReachThePerTransferSubscriber: go-statemachine announces an event from
+// the channel's own goroutine, possibly after the call that caused it has returned (the model's
+// deferred-announcement mode: events are applied at once, announcements are queued in order and
+// delivered after the API call returned). A subscriber registered for one transfer with
+// WithSubscriber must still receive every event applied to its channel - in particular the
+// Error / CleanupComplete of an open that failed - exactly as the global subscribers do, in the
+// same order, and is released only by the channel's terminal event.
+func VerifC17_LateAnnouncementsReachThePerTransferSubscriber() {
+	self, other := peer.ID(zz.String("self")), peer.ID(zz.String("other"))
+	zz.Assume(self != other)
+	f := verifNewManager(self)
+	f.g.DeferNotify = true
+	f.net.MayFail = true
+	f.tr.MayFail = true
+	per, glob := &verifSubLog{}, &verifSubLog{}
+	f.m.SubscribeToEvents(glob.fn())
+	tv := datatransfer.TypedVoucher{Voucher: zz.Node("v"), Type: datatransfer.TypeIdentifier(zz.String("vt"))}
+	base := zz.Cid("base")
+	zz.Assume(base.Defined())
+	ctx := context.Background()
+	var chid datatransfer.ChannelID
+	var err error
+	if zz.Bool("push") {
+		chid, err = f.m.OpenPushDataChannel(ctx, other, tv, base, zz.Node("sel"), datatransfer.WithSubscriber(per.fn()))
+	} else {
+		chid, err = f.m.OpenPullDataChannel(ctx, other, tv, base, zz.Node("sel"), datatransfer.WithSubscriber(per.fn()))
+	}
+	zz.Assert(len(glob.calls) == 0, "deferred mode: nothing was announced inside the call")
+	// the announcements are made after the call has returned
+	f.g.VerifDeliverDeferred()
+	own := 0
+	for _, c := range glob.calls {
+		if c.State.ChannelID() == chid {
+			zz.Assert(own < len(per.calls) && per.calls[own].Code == c.Code, "the per-transfer subscriber receives every event applied to its channel, in order")
+			own++
+		}
+	}
+	zz.Assert(own == len(per.calls), "and nothing else")
+	if err != nil && own > 1 {
+		zz.Reach("failed open announced after the call returned")
+	}
+	if err == nil {
+		zz.Reach("open succeeded")
+	}
+}
+
+// VerifC17_SlowSubscriberDoesNotReorder: announcements are delivered to every subscriber in the
+// order the events were applied, however long a subscriber takes: while one subscriber is still
+// busy with event n (it blocks until the harness releases it; meanwhile any live timer of the
+// library may expire), no other subscriber is handed event n+1 ahead of event n.
+//
+//verif:opts sched=6 replay=engine
+func VerifC17_SlowSubscriberDoesNotReorder() {
+	f, sts, chids := verifTwoChannels()
+	zz.Assume(sts[0].Status == datatransfer.Ongoing)
+	f.g.DeferNotify = true
+	gate := make(chan struct{}, 1)
+	slowCalls := 0
+	f.m.SubscribeToEvents(func(evt datatransfer.Event, st datatransfer.ChannelState) {
+		slowCalls++
+		if slowCalls == 1 {
+			<-gate // busy with the first announcement until released
+		}
+	})
+	fast := &verifSubLog{}
+	f.m.SubscribeToEvents(fast.fn())
+	// two applied events on one channel (bookkeeping events that are valid in every status)
+	_ = f.g.Send(chids[0], datatransfer.DataSent, int64(1))
+	_ = f.g.Send(chids[0], datatransfer.DataReceived, int64(1))
+	zz.Assume(f.g.Applied == 2)
+	go f.g.VerifDeliverDeferred() // the state machine's announcement goroutine
+	zz.Settle()
+	for i := 0; i < 2 && zz.Engine() && zz.LiveTimers() > 0; i++ {
+		zz.FireTimer() // whatever timer the library armed meanwhile expires
+		zz.Settle()
+	}
+	gate <- struct{}{}
+	zz.Settle()
+	zz.Assert(len(fast.calls) == 2, "every subscriber is called once per applied event")
+	zz.Assert(fast.calls[0].Code == datatransfer.DataSent && fast.calls[1].Code == datatransfer.DataReceived, "in the order the events were applied, however slow another subscriber is")
+	zz.Reach("delivered in order")
 }
